@@ -575,7 +575,12 @@ class InProtocolBase(ProtocolMixin):
         return self.duration_from_unicode(cls, string)
 
     def boolean_from_bytes(self, cls, string):
-        return string.lower() in ('true', '1')
+        lower = string.lower()
+        if lower in ('true', '1'):
+            return True
+        if lower in ('false', '0'):
+            return False
+        raise ValidationError(string)
 
     def byte_array_from_bytes(self, cls, value, suggested_encoding=None):
         encoding = self.get_cls_attrs(cls).encoding
